@@ -30,7 +30,15 @@ func (hs *vHistory) vObserveAll(h *verifh.H) string {
 		out += " [" + n + ": " + hs.vObserveDataset(h, n)
 		ch, err := hs.hub.Dsm.GetDataset(n).GetChanges(0, 0, false)
 		h.Assert(err == nil, "feed")
-		out += " token=" + itoa(int(ch.NextToken)) + "]"
+		out += " token=" + itoa(int(ch.NextToken))
+		// the context the entities/changes endpoints hand out for this dataset (public namespaces)
+		var cns []string
+		if ch.Context != nil {
+			for p, e := range ch.Context.Namespaces {
+				cns = append(cns, p+"="+e)
+			}
+		}
+		out += " ctx=" + vJoin(vSorted(cns)) + "]"
 	}
 	ctx := hs.hub.Store.GetGlobalContext(false)
 	var ns []string
@@ -67,7 +75,17 @@ func VerifC14Restart(h *verifh.H) {
 	}
 	nops := h.Param("ops", 2)
 	for k := 0; k < nops; k++ {
-		switch h.Choice("op", 5) {
+		switch h.Choice("op", 6) {
+		case 5: // the public namespaces of dataset b are changed through its meta-entity in core.Dataset
+			nsi, err := hs.hub.Store.NamespaceManager.GetDatasetNamespaceInfo()
+			h.Assert(err == nil, "namespace info")
+			meta, err := hs.hub.Store.GetEntity(nsi.DatasetPrefix+":b", []string{"core.Dataset"}, true)
+			h.Assert(err == nil && meta != nil, "meta-entity of b")
+			if meta == nil {
+				return
+			}
+			meta.Properties[nsi.PublicNamespacesKey] = []interface{}{"http://example.com/pub" + itoa(k) + "/"}
+			h.Assert(hs.hub.Dsm.GetDataset("core.Dataset").StoreEntities([]*Entity{meta}) == nil, "meta-entity stored")
 		case 0: // write
 			name := "b"
 			if cur != "" && h.Choice("toA", 2) == 1 {
